@@ -37,6 +37,8 @@ type c39Async struct {
 	Producers  []int  `json:"producers"`   // records enqueued by each goroutine before the close
 	Racing     []int  `json:"racing"`      // records enqueued by each goroutine concurrently with Close
 	AfterClose int    `json:"after_close"` // records fed after Close returned
+	// Sample > 0: the async hook also samples at this rate (both options on one hook)
+	Sample float64 `json:"sample,omitempty"`
 	// Swap, when set, is a second scenario on its own hook: the writer is
 	// parked inside a write, SetAsync is called again (which closes the
 	// previous emitter and waits for it to drain) while the racers enqueue.
@@ -87,7 +89,7 @@ func genC39(t *rapid.T) c39Case {
 		nc := rapid.IntRange(1, 3).Draw(t, "nhttp")
 		for i := 0; i < nc; i++ {
 			call := genHCall(t, i)
-			call.BadParams = "" // a refused init leaves nothing to group
+			call.BadParams = ""                   // a refused init leaves nothing to group
 			call.Accept, call.ReqZstd = "", false // compression is C38's subject and costs ~50 ms per response
 			c.HTTPCalls = append(c.HTTPCalls, call)
 		}
@@ -107,6 +109,7 @@ func genC39(t *rapid.T) c39Case {
 		a.Racing = append(a.Racing, rapid.IntRange(1, 30).Draw(t, "nrace"))
 	}
 	a.AfterClose = rapid.IntRange(0, 3).Draw(t, "afterclose")
+	a.Sample = []float64{0, 0, 0.3, 0.5, 0.7}[rapid.IntRange(0, 4).Draw(t, "asyncsample")]
 	if rapid.IntRange(0, 2).Draw(t, "swap?") == 0 {
 		sw := &c39Swap{}
 		sw.Queue1 = []int{1, 2, 8, 64}[rapid.IntRange(0, 3).Draw(t, "swapq1")]
@@ -382,6 +385,43 @@ func runC39Async(c c39Case, out *lib.Outcome) {
 		openGate()
 	}
 	hook := vgirpc.NewAccessLogHook(gw, "")
+	// With sampling on the same hook, only the records the sampler keeps are
+	// "enqueued". Which ones those are is learnt from a synchronous hook at the
+	// same rate (the decision is a function of the id and the rate); errors
+	// are always kept, and the sentinels are errors then.
+	keptA := map[string]bool{}
+	sampling := a.Sample > 0
+	if sampling {
+		out.Label("async:with-sampling")
+		var buf bytes.Buffer
+		ref := vgirpc.NewAccessLogHook(&buf, "")
+		if err := ref.SetSampleRate(a.Sample); err != nil {
+			out.Violate("C39/async-setup", "SetSampleRate(%v): %v", a.Sample, err)
+			return
+		}
+		for g, n := range a.Producers {
+			for i := 0; i < n; i++ {
+				info := baseInfo(fmt.Sprintf("a_%d_%d", g, i), vgirpc.DispatchMethodUnary)
+				info.RequestID = fmt.Sprintf("rq-a-%d-%d", g, i)
+				var err error
+				if i%3 == 2 {
+					err = errors.New("boom")
+				}
+				feedHook(ref, info, err)
+			}
+		}
+		ls, _ := splitLines(buf.Bytes())
+		for _, l := range ls {
+			if l.Rec != nil {
+				m, _ := asString(l.Rec["method"])
+				keptA[m] = true
+			}
+		}
+		if err := hook.SetSampleRate(a.Sample); err != nil {
+			out.Violate("C39/async-setup", "SetSampleRate(%v): %v", a.Sample, err)
+			return
+		}
+	}
 	if err := hook.SetAsync(a.Queue); err != nil {
 		out.Violate("C39/async-setup", "SetAsync(%d): %v", a.Queue, err)
 		return
@@ -484,7 +524,11 @@ waitA:
 					firstPanic.CompareAndSwap(nil, fmt.Sprint(rv))
 				}
 			}()
-			feedHook(hook, info, nil)
+			var serr error
+			if sampling {
+				serr = errors.New("sentinel") // an error record is always kept
+			}
+			feedHook(hook, info, serr)
 		}()
 		sentinels++
 		// Wait until it is written, or until the writer has gone idle (the
@@ -624,6 +668,17 @@ waitA:
 	}
 	writtenA := int64(sentinelIdx + 1)
 	enqueuedA := int64(totalA + sentinels)
+	if sampling {
+		enqueuedA = int64(len(keptA) + sentinels)
+		for i := 0; i <= sentinelIdx; i++ {
+			ls, _ := splitLines(lines[i])
+			if len(ls) == 1 && ls[0].Rec != nil {
+				if m, _ := asString(ls[0].Rec["method"]); strings.HasPrefix(m, "a_") && !keptA[m] {
+					out.Violate("C39/async-sampled-out-record-written", "record %s is dropped by the sampler at rate %v on a synchronous hook but was written by the async one", m, a.Sample)
+				}
+			}
+		}
+	}
 	switch {
 	case writtenA+droppedUpTo < enqueuedA:
 		out.Violate("C39/async-accounting-lost", "queue %d, writer %s: %d records enqueued before the sentinel got through, %d written and %d reported in dropped_records — %d lost silently",
@@ -822,13 +877,13 @@ var propC39 = lib.Prop[c39Case]{
 	ID: "C39",
 	Rule: "per case (a) 1-40 records fed through a sampling AccessLogHook (rates 0, 1e-9, 0.25, 0.5, 0.75, 1-1e-9, 1, random), stream records drawn from 1-6 shared stream ids with varying request ids, unary records from a pool of 6 request ids or none, a quarter of them errors; " +
 		"(b) in a quarter of the cases 1-3 real HTTP calls (unary, producer with a batch limit followed to the end, exchange of 1-3 turns) through a sampled hook; " +
-		"(c) an async hook (queue 1-64) over a writer gated by the harness (blocked until every enqueuer returned / 50 µs per record / fast), 1-8 goroutines released together enqueueing 0-40 records each, then sentinel records fed alone until one is written, then 0-4 goroutines enqueueing concurrently with Close, then 0-3 dispatches after Close; in a third of the cases also a second hook whose writer is parked inside a write while SetAsync replaces its emitter (queues 1-64) and 1-8 goroutines dispatch 1-60 records each concurrently: all must return while the writer stays parked. " +
+		"(c) an async hook (queue 1-64) over a writer gated by the harness (blocked until every enqueuer returned / 50 µs per record / fast), 1-8 goroutines released together enqueueing 0-40 records each, then sentinel records fed alone until one is written, (in two cases of five the same hook also samples at 0.3/0.5/0.7: the records a synchronous hook keeps at that rate are the ones accounted for) then 0-4 goroutines enqueueing concurrently with Close, then 0-3 dispatches after Close; in a third of the cases also a second hook whose writer is parked inside a write while SetAsync replaces its emitter (queues 1-64) and 1-8 goroutines dispatch 1-60 records each concurrently: all must return while the writer stays parked. " +
 		"Oracle: error records always written; non-error records sharing a stream id (else a request id) all written or all absent; written non-error records carry sample_rate = rate; with the writer gated shut every enqueuer returns (violation only if no enqueue completes for 10 s while the gate is shut); " +
 		"lines up to the sentinel: count + sum(dropped_records) = records enqueued before it (exact), each record written at most once, one JSON line per write; after it only the inequality. " +
 		"Non-trivial: a written record carrying dropped_records > 0 (a drop followed by a later written record).",
 	Gen:          genC39,
 	Run:          runC39,
-	Essential:    []string{"async:blocked", "async:slow", "async:fast", "async:drop-then-written", "async:overfull-while-blocked", "async:racing-close", "async:swap-all-returned-while-parked", "sample:group-kept", "sample:group-dropped", "sample:error-kept", "sample:real-stream-multi", "rate:0", "rate:tiny", "rate:mid", "rate:1"},
+	Essential:    []string{"async:blocked", "async:slow", "async:fast", "async:drop-then-written", "async:overfull-while-blocked", "async:racing-close", "async:with-sampling", "async:swap-all-returned-while-parked", "sample:group-kept", "sample:group-dropped", "sample:error-kept", "sample:real-stream-multi", "rate:0", "rate:tiny", "rate:mid", "rate:1"},
 	EssentialMin: 300,
 	Assumptions: []string{
 		"'enqueued before close' means the dispatch returned before Close was called; records fed concurrently with or after Close are only required not to be written twice",
